@@ -168,6 +168,32 @@ class Evaluator(Run):
         from . import models
 
         hint = self.ctx.type_hint(node)
+        if hint is not None and hint.kind == "drec":
+            fields = {}
+            r = self.alloc(hint, fields)
+            given = {}
+            for k, v in zip(node.keys, node.values):
+                if not (isinstance(k, ast.Constant) and isinstance(k.value, str)):
+                    raise Unsupported("record display with a non-literal key")
+                given[k.value] = v
+            for fn_, ft in hint.fields.items():
+                if fn_ in given:
+                    self.ctx.hint_stack.append(ft if ft.heap else None)
+                    try:
+                        val = self.ev(given[fn_], frame)
+                    finally:
+                        self.ctx.hint_stack.pop()
+                    fields[fn_] = val if ft.heap else self.coerce(self.data(val), ft)
+                elif fn_ in hint.optional:
+                    fields[fn_] = self.ctx.alloc_symbolic(self, ft, fresh_name(fn_)) if ft.heap else fresh(ft, fn_)
+                else:
+                    raise Unsupported("record display lacks required key %r" % fn_)
+            for o_ in hint.optional:
+                fields["has_" + o_] = mk_bool(o_ in given)
+            for extra in given:
+                if extra not in hint.fields and extra not in self.ctx.c.config.get("untracked_keys", ()):
+                    raise Unsupported("record display with untracked key %r" % extra)
+            return r
         if hint is None or hint.kind != "dict":
             raise Unsupported("dict display without a declared type (line %s)" % node.lineno)
         d = models.new_dict(self, hint)
@@ -1538,6 +1564,8 @@ class Evaluator(Run):
             names |= assigned_names_target(node.target)
         names |= set(spec.get("havoc", []))
         mut_roots = mutated_roots(node.body) | set(spec.get("havoc", []))
+        if "havoc_only" in spec:
+            mut_roots = set(spec["havoc_only"])  # the contract states the loop's heap frame explicitly
         locs = set()
         for n in sorted(mut_roots):
             v = frame.lookup(n) or ctx.lookup_global(self, n)
